@@ -513,6 +513,7 @@ def run(fx, rep):
         txt = json.dumps(pb.raw['blocks'])
         dc = set(re.findall(r'"k": "Downcast"[^{}]*"name": "(\w+)"', txt)) | set(re.findall(r'"name": "(\w+)"[^{}]*"k": "Downcast"', txt))
         fn = re.sub(r'::\{closure#\d+\}', '', F.norm_path(pb.path))
+        fn = re.sub(r'^<([\w:]+) as [^>]*(<[^>]*>)?[^>]*>::', lambda mm: mm.group(1) + '::', fn)
         bad = (dc & ev) - ALLOWED.get(fn, set())
         for v in sorted(bad):
             rep.violation('R9', 'inspects-built-expression/%s/%s' % (fn.split('::', 1)[-1], v), pb.loc(),
